@@ -288,6 +288,13 @@ theorem timerInv_step (e : Ep) (ev : Ev) (hi : TimerInv e) : TimerInv (step e ev
         split
         · exact timerInv_doClose _ h1
         · exact timerInv_sendSessTerm _ _ _ h1
+  | modulate raw =>
+    simp only []
+    split
+    · exact hi
+    · split
+      · exact timerInv_of_view rfl hi
+      · exact hi
 
 theorem timerInv_init (cfg : Cfg) : TimerInv { cfg := cfg } := by simp [TimerInv]
 
